@@ -53,11 +53,26 @@ def check_load_outcome(load, text):
         return f"load_program raised {n}: {str(e)[:120]}", "err"
 
 
+LOOKALIKE = {"s": "ſ", "i": "ı", "I": "İ", "k": "K", "K": "K", "S": "ſ", "a": "а", "e": "е", "o": "ο", "x": "х", "l": "ℓ"}
+
+
+def lookalike(rng, text):
+    """replace one ASCII letter by a Unicode character that case-folds to / looks like it"""
+    idx = [k for k, c in enumerate(text) if c in LOOKALIKE]
+    if not idx:
+        return text
+    k = rng.choice(idx)
+    return text[:k] + LOOKALIKE[text[k]] + text[k + 1:]
+
+
 def inject(rng, text, faults):
     lines = text.split("\n")
     for _ in range(rng.choice([1, 1, 2])):
         lines.insert(rng.randrange(0, len(lines) + 1), rng.choice(faults))
-    return "\n".join(lines)
+    text = "\n".join(lines)
+    if rng.random() < 0.35:
+        text = lookalike(rng, text)
+    return text
 
 
 def soup(rng, vocab):
@@ -70,9 +85,9 @@ def soup(rng, vocab):
 
 
 RV_VOCAB = ["add", "addi", "li", "la", "lw", "sw", "beq", "jal", "jalr", "ecall", "nop", ".data", ".text", "x1", "a0", "x31,", "x0,", "zero,",
-            "foo", "foo:", "0x10", "-5", "01", "0b2", "(", ")", "[", "]", "4(x2)", "v[1]", ".word", ".string", "\"s\"", "#", ",", ":", "+0x4",
+            "foo", "foo:", "0x10", "-5", "01", "0b2", "addı", "ſub", "ADDİ", "ſw", "(", ")", "[", "]", "4(x2)", "v[1]", ".word", ".string", "\"s\"", "#", ",", ":", "+0x4",
             "é", "１", "\t", "mv", ".zero", "-", "0x", "LUI", "x1,"]
-TOY_VOCAB = ["LDA", "STO", "BRZ", "ADD", "NOP", "INC", "lda", ".data", ".text", ".word", "x", "x:", "loop:", "0x10", "12", "0x", "1,", "2", ",",
+TOY_VOCAB = ["ſto", "ıNC", "LDA", "STO", "BRZ", "ADD", "NOP", "INC", "lda", ".data", ".text", ".word", "x", "x:", "loop:", "0x10", "12", "0x", "1,", "2", ",",
              ":", "#", "é", "-1", "007", "0xZZ", "y: .word", "NOT 3"]
 
 
@@ -149,6 +164,8 @@ class ToyErrors(RvErrors):
         r = rng.random()
         if r < 0.6:
             text, _ = TA.gen_source(rng, malformed=True)
+            if rng.random() < 0.35:
+                text = lookalike(rng, text)
         elif r < 0.85:
             text = soup(rng, TOY_VOCAB)
         else:
